@@ -58,6 +58,10 @@ PROBES = {
     "own_job_script": q([{"metadata_type": "add_job_script", "name": "mine", "script": ["my_option = 2"], "depends_on": []}], "lambda e: e.Jets('A').Count()"),
     "own_declarations": q([dict(MTI, return_type="float"), dict(INJECT, body_includes=["mine.h"], private_members=[], link_libraries=[])],
                           "lambda e: e.Jets('A').Select(lambda j: j.pt())"),
+    # column names that differ only by trailing digits: whatever the counters of earlier queries were, the package must be the
+    # fresh one up to numbering (same declaration order, distinct members)
+    "digit_columns": q([], "lambda e: {'pt': e.Jets('A').Select(lambda j: j.pt()), 'pt2': e.Jets('A').Count(), 'pt22': e.Jets('A').Select(lambda j: j.eta()), "
+                           "'x1': e.Jets('A').Count() + 1, 'x': e.Jets('A').Count() + 2, 'x11': e.Jets('A').Count() + 3}"),
 }
 # probes used only after LONG histories (10..12 repetitions of one plain query): generated names must stay distinct whatever the
 # counters of earlier queries were
@@ -264,7 +268,14 @@ def main():
                 if set(diff_files) <= {"query.cxx", "query.h"}:
                     eq, why = semantic_equal(PROBES_ALL[p], r["raw"], b["raw"])
                 if eq is True:
+                    # "the same, up to the numbering of generated names": a difference that renaming does not explain is a
+                    # violation even when the two packages compute the same rows (e.g. declarations emitted in another order)
                     benign.append((tag, diff_files, why))
+                    import difflib
+                    d0 = diff_files[0]
+                    delta = [ln for ln in difflib.unified_diff(b["files"][d0].splitlines(), r["files"][d0].splitlines(), lineterm="", n=0)
+                             if ln[:1] in "+-" and not ln.startswith(("+++", "---"))][:6]
+                    problem = f"package text differs beyond the numbering of generated names in {diff_files} (rows equal for all events): {delta}"
                 else:
                     import difflib
                     d0 = diff_files[0]
